@@ -6,7 +6,7 @@ import collections
 import importlib
 import random
 
-from ..common import Report, main_wrapper, scratch, seed
+from ..common import Report, main_wrapper, scratch, eff_seed
 from ..edgecheck import SAFETY_TRAPS
 from ..machine import run_units, trap_kind
 from .. import frontgen
@@ -28,7 +28,7 @@ def corpus_units(cap):
                 u, ex = make_unit(f"{m.split('.')[-1]}.{p.name()}", pa, None, mode="F")
             except ExportError:
                 continue
-            rng = random.Random(f"c03/{seed()}/{p.name()}")
+            rng = random.Random(f"c03/{eff_seed()}/{p.name()}")
             u["inputs"] = [{"a": s} for s in gen_inputs(pa, ex.cfgtypes(), "F", rng, cap=cap, idxs=(-2, -1, 0, 1, 2, 3))]
             units.append(u)
             meta.append({"kind": "corpus", "src": str(p), "id": u["name"]})
@@ -40,7 +40,7 @@ def main():
     rep = Report("C03", a.tier, "model_checking")
     quick = a.tier == "quick"
     n_gen = 480 if quick else 6000
-    recs = frontgen.run(n_gen, seed(), cap=16 if quick else 48)
+    recs = frontgen.run(n_gen, eff_seed(), cap=16 if quick else 48)
     stat = collections.Counter(r["status"] for r in recs)
     bykind = collections.defaultdict(collections.Counter)
     for r in recs:
